@@ -10,7 +10,9 @@ import (
 	"bytes"
 	"errors"
 	"fmt"
+	"io"
 	"net"
+	"os"
 	"runtime"
 	"sort"
 	"strings"
@@ -182,6 +184,7 @@ type clientEngine struct {
 	manual                                bool
 	skew                                  time.Duration
 	collNoWait                            bool
+	collTwo                               bool
 	noConnClose                           bool
 	noRetransmit                          bool
 	hasFallback                           bool
@@ -193,6 +196,7 @@ type clientEngine struct {
 	writeFailPct, readFailPct             int
 	closeErrConn, closeErrAgent           bool
 	connCloseErr                          error
+	writeErr                              error
 	bigPct                                int
 	avoidKnown                            bool
 	closePct                              int
@@ -219,6 +223,7 @@ type clientEngine struct {
 	closes              []*cClose
 	closeOK             *cClose
 	closeBegan          bool
+	anyCloseReturned    bool
 	cbActive            map[[stun.TransactionIDSize]byte]int
 	cbLive              map[[stun.TransactionIDSize]byte][]*cCallback
 	suspects            []cSuspect
@@ -318,26 +323,39 @@ type simCollector struct {
 	exited   bool
 	startErr error
 	noWait   bool
+	two      bool
+	task2    *verifrt.Task
+	exited2  bool
 }
 
 func (c *simCollector) Start(rate time.Duration, f func(now time.Time)) error {
 	c.f = f
 	e := c.e
 	parent := e.r.Sim.Cur()
-	c.task = e.r.Sim.Spawn("collector", func() {
-		for {
-			e.r.Sim.BlockUntil("tick", hsCollector, func() bool { return c.ticks > 0 || c.closed })
-			if c.closed {
-				e.r.Sim.HBRelease(uintptr(0xC011EC7))
-				c.exited = true
-				return
+	loop := func(done *bool) func() {
+		return func() {
+			for {
+				e.r.Sim.BlockUntil("tick", hsCollector, func() bool { return c.ticks > 0 || c.closed })
+				if c.closed {
+					e.r.Sim.HBRelease(uintptr(0xC011EC7))
+					*done = true
+					return
+				}
+				c.ticks--
+				now := e.now
+				e.r.Logf("collector: tick f(%v)", now.Sub(baseTime))
+				c.f(now)
 			}
-			c.ticks--
-			now := e.now
-			e.r.Logf("collector: tick f(%v)", now.Sub(baseTime))
-			c.f(now)
 		}
-	}, parent)
+	}
+	c.task = e.r.Sim.Spawn("collector", loop(&c.exited), parent)
+	c.exited2 = true
+	if c.two {
+		// "It is safe to call Collect concurrently": a user-driven collector may
+		// deliver ticks from more than one goroutine
+		c.exited2 = false
+		c.task2 = e.r.Sim.Spawn("collector2", loop(&c.exited2), parent)
+	}
 	return nil
 }
 
@@ -350,7 +368,7 @@ func (c *simCollector) Close() error {
 		return nil
 	}
 	// like the real collector: wait until the goroutine has exited
-	c.e.r.Sim.BlockUntil("collector-close", hsCollector, func() bool { return c.exited })
+	c.e.r.Sim.BlockUntil("collector-close", hsCollector, func() bool { return c.exited && c.exited2 })
 	c.e.r.Sim.HBAcquire(uintptr(0xC011EC7))
 	return nil
 }
@@ -424,6 +442,17 @@ func (a *wrapAgent) SetHandler(h stun.Handler) error {
 		}
 		isTimeout := errors.Is(ev.Error, stun.ErrTransactionTimeOut)
 		if isTimeout {
+			if e.cbActive[ev.TransactionID] > 0 {
+				// two timeout events of one transaction are being handled at the same
+				// time (ticks delivered from two goroutines, the first one stalled):
+				// their writes can reach the connection in either order, so
+				// "transmission k" is not well defined; the schedule clauses are not
+				// evaluated for this transaction (bytes and count still are)
+				if tx := e.byID[ev.TransactionID]; tx != nil {
+					tx.kcB = true
+					e.stats["probe_overlapping_timeout_handling_of_one_transaction"]++
+				}
+			}
 			e.cbActive[ev.TransactionID]++
 			e.cbLive[ev.TransactionID] = append(e.cbLive[ev.TransactionID], cb)
 			cb.tx = e.byID[ev.TransactionID]
@@ -604,10 +633,10 @@ func (c *simConn) Write(b []byte) (int, error) {
 			e.serve(data)
 			verifrt.Yield(hsWrite)
 			verifrt.Yield(hsWrite)
-			return len(b), errInjWrite
+			return len(b), e.writeErr
 		}
 		e.r.Logf("write: injected failure")
-		return 0, errInjWrite
+		return 0, e.writeErr
 	}
 	if e.armedWriteBlock > 0 && !c.closed && !e.noConnClose && w.trigger == nil && tk != nil && len(e.cbStack[tk.ID]) == 0 && strings.HasPrefix(tk.Name, "C") {
 		// (only a caller's own first write: a retransmission blocked for ever
@@ -666,12 +695,46 @@ func (c *simConn) Close() error {
 // server + network
 
 func (e *clientEngine) classify(d *cDatagram) {
+	// The harness's own framing check (RFC 5389 header, magic cookie, declared
+	// length within the datagram, attribute TLVs with padding inside the declared
+	// length) decides what counts as decodable; the library's decoder is only
+	// cross-checked against it.
+	id, ok := frameOK(d.data)
+	d.decodes, d.id = ok, id
 	var m stun.Message
 	m.Raw = append([]byte(nil), d.data...)
-	if err := m.Decode(); err == nil {
-		d.decodes = true
-		d.id = m.TransactionID
+	if err := m.Decode(); (err == nil) != ok {
+		e.stats["probe_decoder_disagrees_with_harness_framing"]++
 	}
+}
+
+// frameOK is an independent implementation of the framing rules.
+func frameOK(b []byte) (id [stun.TransactionIDSize]byte, ok bool) {
+	if len(b) < 20 {
+		return id, false
+	}
+	if b[4] != 0x21 || b[5] != 0x12 || b[6] != 0xA4 || b[7] != 0x42 {
+		return id, false
+	}
+	size := int(b[2])<<8 | int(b[3])
+	if len(b) < 20+size {
+		return id, false
+	}
+	body := b[20 : 20+size]
+	for len(body) > 0 {
+		if len(body) < 4 {
+			return id, false
+		}
+		alen := int(body[2])<<8 | int(body[3])
+		padded := (alen + 3) &^ 3
+		body = body[4:]
+		if len(body) < padded {
+			return id, false
+		}
+		body = body[padded:]
+	}
+	copy(id[:], b[8:20])
+	return id, true
 }
 
 func (e *clientEngine) serve(req []byte) {
@@ -1202,7 +1265,7 @@ func (e *clientEngine) checkOutcome(tx *cTx, c *cCall) {
 					tx.name(), c.when.Sub(baseTime), n, tx.lb[n].Sub(baseTime), bound.Sub(baseTime))
 			}
 		}
-	case errors.Is(c.err, errInjWrite):
+	case errors.Is(c.err, e.writeErr):
 		e.stats["outcome_write_error"]++
 		if !tx.writeFailed {
 			e.fail(tx, "C10", "outcome-foreign-write-error", "handler of %s received a write error although none of its writes failed", tx.name())
@@ -1219,7 +1282,7 @@ func (e *clientEngine) checkOutcome(tx *cTx, c *cCall) {
 		}
 	default:
 		var se stun.StopErr
-		if errors.As(c.err, &se) && errors.Is(se.Cause, errInjWrite) && tx.writeFailed {
+		if errors.As(c.err, &se) && errors.Is(se.Cause, e.writeErr) && tx.writeFailed {
 			e.stats["outcome_write_error"]++
 			return
 		}
@@ -1236,7 +1299,7 @@ func (e *clientEngine) lateCollectorTask() bool {
 		return false
 	}
 	tk := e.r.Sim.Cur()
-	return tk != nil && tk.ID == e.coll.task.ID
+	return tk != nil && (tk.ID == e.coll.task.ID || (e.coll.task2 != nil && tk.ID == e.coll.task2.ID))
 }
 
 func (e *clientEngine) fallbackReenter() {
@@ -1391,6 +1454,11 @@ func (e *clientEngine) startTx3(tk *verifrt.Task, kind cTxKind, reuse *cTx, prot
 	}
 	size := e.drawSize()
 	m := e.buildMsg(id, size, class)
+	if r.Pct(4, "trailing-bytes") {
+		// Raw longer than header + Length: still "the message as it was when Start was called"
+		m.Raw = append(m.Raw, 0xde, 0xad, 0xbe, 0xef, byte(len(m.Raw)))
+		e.stats["probe_request_with_trailing_bytes"]++
+	}
 	tx := &cTx{idx: len(e.txs), kind: kind, id: id, task: tk.ID, snapshot: append([]byte(nil), m.Raw...), size: len(m.Raw), reuseOf: -1}
 	if reuse != nil {
 		tx.reuseOf = reuse.idx
@@ -1407,7 +1475,8 @@ func (e *clientEngine) startTx3(tk *verifrt.Task, kind cTxKind, reuse *cTx, prot
 	}
 	tx.invoke = r.Seq()
 	tx.invokeAt = e.vnow()
-	if e.closeOK != nil && e.closeOK.done {
+	if (e.closeOK != nil && e.closeOK.done) || e.anyCloseReturned {
+		// after Close returned (to anybody, also with ErrClientClosed) the caller knows the client is closed
 		tx.afterClose = true
 	}
 	e.txs = append(e.txs, tx)
@@ -1459,7 +1528,7 @@ func (e *clientEngine) startTx3(tk *verifrt.Task, kind cTxKind, reuse *cTx, prot
 		switch {
 		case errors.Is(err, stun.ErrClientClosed), errors.Is(err, stun.ErrAgentClosed):
 			e.stats["probe_start_returned_closed_error"]++
-		case errors.Is(err, errInjWrite), errors.Is(err, errConnClosed):
+		case errors.Is(err, e.writeErr), errors.Is(err, errConnClosed):
 			e.stats["probe_start_returned_write_error"]++
 		default:
 			var se stun.StopErr
@@ -1531,6 +1600,7 @@ func (e *clientEngine) doClose2(tk *verifrt.Task, viaFinalizer bool) {
 	}
 	c.err = err
 	c.ret = r.Seq()
+	e.anyCloseReturned = true
 	r.Logf("return Close by %s -> %v (finalizer=%v)", tk.Name, err, viaFinalizer)
 	if errors.Is(err, stun.ErrClientClosed) {
 		c.done = true
@@ -1638,6 +1708,7 @@ func (e *clientEngine) Setup(r *Run) {
 	case 1, 2:
 		e.manual = true // simulated clock and collector
 		e.collNoWait = r.Pct(25, "collector-nowait")
+		e.collTwo = r.Pct(20, "collector-two-tasks")
 	case 3:
 		e.skew = time.Hour // custom clock (one hour behind or ahead of the ticker's own time) over the real ticker collector
 		if r.Pct(50, "skew-ahead") {
@@ -1663,6 +1734,8 @@ func (e *clientEngine) Setup(r *Run) {
 	e.corruptPct = pcts[r.Choose(4, "corrupt")]
 	e.spontPct = pcts[r.Choose(4, "spont")]
 	e.writeFailPct = []int{0, 0, 5, 20}[r.Choose(4, "wfail")]
+	// what a failing Write returns: a plain error, a timeout-class net.Error, a closed pipe
+	e.writeErr = []error{errInjWrite, &net.OpError{Op: "write", Net: "udp", Err: os.ErrDeadlineExceeded}, io.ErrClosedPipe}[r.Choose(3, "werr-kind")]
 	e.readFailPct = []int{0, 0, 5, 20}[r.Choose(4, "rfail")]
 	e.closeErrConn = r.Pct(15, "closeerr-conn")
 	// what a connection's Close may return: a custom error, or the errors the
@@ -1762,7 +1835,7 @@ func (e *clientEngine) Setup(r *Run) {
 			opts = append(opts, stun.WithNoConnClose())
 		}
 		if e.manual {
-			e.coll = &simCollector{e: e, noWait: e.collNoWait}
+			e.coll = &simCollector{e: e, noWait: e.collNoWait, two: e.collTwo}
 			opts = append(opts, stun.WithClock(simClock{e}), stun.WithCollector(e.coll))
 		} else if e.skew != 0 {
 			opts = append(opts, stun.WithClock(simClock{e}))
